@@ -814,7 +814,15 @@ class CSSStyleSheet(cssutils.stylesheets.StyleSheet):
                 # no doublettes
                 self._cssRules.insert(index, rule)
                 if _clean:
-                    self._cleanNamespaces()
+                    try:
+                        self._cleanNamespaces()
+                    except xml.dom.DOMException:
+                        # e.g. the rule it replaces is still in use
+                        for i, r in enumerate(self._cssRules):
+                            if r is rule:
+                                del self._cssRules[i]
+                                break
+                        raise
 
             if rule not in self._cssRules:
                 # doublette or cleaned again, must not get this sheet as parent
